@@ -6,6 +6,7 @@ import Pdlv.Ref
 import Pdlv.Inherit
 import Pdlv.Seg
 import Pdlv.Static
+import Pdlv.Py
 import Pdlv.Analyzer
 import Pdlv.ToJson
 import Pdlv.Syntax
@@ -325,6 +326,11 @@ def handle (st : State) (req : Json) : Except String (State × Json) := do
           match hexToBytes (← J.str c "hex").toList with
           | none => throw "bad hex"
           | some bs => pure (decOut ((decodeFull cfg b bs).bind fun v => .ok (v, [])))
+        | "pydecfull" =>
+          -- the model of the parser the Python back end emits (`Pdlv.Py`), `parse_all`
+          match hexToBytes (← J.str c "hex").toList with
+          | none => throw "bad hex"
+          | some bs => pure (decOut ((Py.decodeFull cfg b bs).bind fun v => .ok (v, [])))
         | "enc" =>
           let v ← valueOfJson (← c.getObjVal? "v")
           pure (encOut (encBody cfg b v))
@@ -348,7 +354,7 @@ def handle (st : State) (req : Json) : Except String (State × Json) := do
           pure (Json.mkObj [("r", "ok"), ("len", Json.num (lenBody b v)), ("enclen", Json.num (encLen b v)),
             ("lenwf", Json.bool (lenWfBody b)), ("decwf", Json.bool (decWfBody b)),
             ("refwf", Json.bool (refWfBody b)), ("nomod", Json.bool (noModBody b)),
-            ("rtwf", Json.bool (rtWfFull b)), ("exactwf", Json.bool (exactWfBody b)), ("derived", Json.bool (match b with | .derived .. => true | _ => false))])
+            ("rtwf", Json.bool (rtWfFull b)), ("exactwf", Json.bool (exactWfBody b)), ("typed", Json.bool (typedBody b v)), ("pywf", Json.bool (Py.wfBody b)), ("derived", Json.bool (match b with | .derived .. => true | _ => false))])
         | "canon" =>
           -- the right-hand side of theorem `roundtrip`: the normal form of the value
           let v ← valueOfJson (← c.getObjVal? "v")
